@@ -296,13 +296,19 @@ func RefFilter(q Q, cards []Card) (sel []int, wantErr bool, decided bool) {
 	return sel, false, true
 }
 
-// Project returns the fields the statement keeps for a selected card.
-func Project(q Q, c Card) []Fld {
+// Project returns the fields the statement keeps for a selected card.  vCard property names are case-insensitive
+// (RFC 6350 section 3.3) while go-vcard keys a card by the upper-case spelling, and the statement does not say which
+// of the two a requested name that is not upper case selects: fold chooses the reading (false: the name as given,
+// true: its upper-case spelling); callers accept either result.
+func Project(q Q, c Card, fold bool) []Fld {
 	if q.Nil || q.AllProp || len(q.Props) == 0 {
 		return c.Fields
 	}
 	want := map[string]bool{"VERSION": true}
 	for _, p := range q.Props {
+		if fold {
+			p = strings.ToUpper(p)
+		}
 		want[p] = true
 	}
 	var l []Fld
